@@ -192,6 +192,41 @@ def _oracle(c, rng):
             if not np.allclose(xr, Pn[j + m - 1, :nx], rtol=1e-9, atol=1e-12):
                 return (f'episode {l} (no re-lifting): predicted state {j + m - 1} is not the retraction of the lifted '
                         f'state of its time step'), tags
+    if rng.random() < 0.5:
+        # HISTORY: the fitted regressor is updated AFTER trajectories were predicted (regressor_ re-fitted on the lifted
+        # data with another Koopman matrix, or its coef_ replaced); prediction must follow the regressor it has now
+        rs = np.random.RandomState(rng.randint(0, 2 ** 31 - 1))
+        pup = kp.n_inputs_out_
+        K2 = rs.uniform(-1, 1, (pth, pth + pup))
+        K2[:, :pth] *= 0.5 / max(1e-9, np.max(np.abs(np.linalg.eigvals(K2[:, :pth]))) + 0.2)
+        K2[:, pth:] *= 0.3
+        how = rng.choice(['regressor_.fit', 'coef_ replaced'])
+        tags = dict(tags, history=how)
+        Afit = np.array(c['rows_lab'], dtype=float)
+        Xfit = Afit if fe else Afit[:, 1:]
+        if how == 'regressor_.fit':
+            kp.regressor_.set_params(coef=K2.T)
+            kp.regressor_.fit(kp.transform(Xfit), n_inputs=pup, episode_feature=fe)
+        else:
+            kp.regressor_.coef_ = K2.T.copy()
+        P2 = kp.predict_trajectory(X0, U, relift_state=True, return_input=True, episode_feature=c['call'])
+        eps_2 = st.episodes(P2, e)
+        for l, Xe in eps_in.items():
+            P = eps_2[l]
+            for k in range(m, Xe.shape[0]):
+                W = np.hstack((P[k - m:k, :nx], Xe[k - m:k, nx:]))
+                one = kp.predict(st.ref_combine([(l, W)], fe))[-1, (1 if fe else 0):]
+                if not np.allclose(one, P[k, :nx], rtol=1e-7, atol=1e-9):
+                    return (f'after {how}: episode {l}: predicted state {k} is not the one-step prediction (predict) from states '
+                            f'{k - m}..{k - 1}'), tags
+        L2 = kp.predict_trajectory(X0, U, relift_state=False, return_lifted=True, return_input=True, episode_feature=c['call'])
+        for l, Le in st.episodes(L2, e).items():
+            Th, Up = Le[:, :pth], Le[:, pth:]
+            for k in range(Le.shape[0] - 1):
+                nxt = K2[:, :pth] @ Th[k] + K2[:, pth:] @ Up[k]
+                if not np.allclose(nxt, Th[k + 1], rtol=1e-9, atol=1e-12):
+                    return (f'after {how}: episode {l}: lifted trajectory violates theta[k+1] = A theta[k] + B upsilon[k] for the '
+                            f'current regressor_.coef_ at k={k}'), tags
     return None, None
 
 
@@ -258,6 +293,17 @@ def oracle(c, rng):
         return _oracle(c, rng)
     except Exception as ex:
         return f'predict / predict_trajectory raised {type(ex).__name__}: {ex}', {'raised': True}
+
+
+def population_search(ctx):
+    """failing-input search over a fresh population (also used when an exception raised inside the implementation
+    ended the correspondence run early)"""
+    for i in range(300):
+        fc = gen(ctx, float_data=True)
+        w, tags = oracle(fc, ctx.rng)
+        if w:
+            ctx.fail(w, fc, tags)
+            return
 
 
 def run(ctx):
@@ -401,12 +447,7 @@ def run(ctx):
                 if w:
                     ctx.fail(w, fc, tags)
                     return
-        for i in range(300):
-            fc = gen(ctx, float_data=True)
-            w, tags = oracle(fc, ctx.rng)
-            if w:
-                ctx.fail(w, fc, tags)
-                return
+        population_search(ctx)
     return ctx.finish('proof', search)
 
 
